@@ -16,6 +16,7 @@ func init() {
 	zzverif.Register("VerifC06LineLong", VerifC06LineLong)
 	zzverif.Register("VerifC06LineMut", VerifC06LineMut)
 	zzverif.Register("VerifC06LineMutLong", VerifC06LineMutLong)
+	zzverif.Register("VerifC06LineMutIns", VerifC06LineMutIns)
 }
 
 // seed lines for the mutation harness: realistic cursor lines of 8..24 bytes
@@ -165,15 +166,18 @@ func verifC06Line(maxN int) {
 }
 
 // VerifC06LineMut: every helper on every seed line with one arbitrary byte substituted at any
-// place, cursor coordinates 0..255 or 2^32-256..2^32-1.
-func VerifC06LineMut() { verifC06LineMut(c06Seeds, 1) }
+// place, cursor coordinates 0..255 or 2^32-256..2^32-1. (Runs in both tiers.)
+func VerifC06LineMut() { verifC06LineMut(c06Seeds, c06Substitute, 1) }
 
-// VerifC06LineMutLong: twice as many seed lines; substitution, insertion or deletion of one byte.
-func VerifC06LineMutLong() {
-	verifC06LineMut(append(append([]string(nil), c06Seeds...), c06SeedsLong...), 3)
-}
+// VerifC06LineMutIns (thorough): the same seed lines with one arbitrary byte inserted at any
+// place, or one byte deleted.
+func VerifC06LineMutIns() { verifC06LineMut(c06Seeds, c06Insert, 2) }
 
-func verifC06LineMut(seeds []string, kinds int) {
+// VerifC06LineMutLong (thorough): substitution in ten further seed lines.
+func VerifC06LineMutLong() { verifC06LineMut(c06SeedsLong, c06Substitute, 1) }
+
+// the mutation kind is kind0 + a case split over nkinds
+func verifC06LineMut(seeds []string, kind0, nkinds int) {
 	h := zzverif.Choice("helper", c06NHelpers+1)
 	if h == c06NHelpers {
 		// isTransactionHeaderLine matches a regular expression; the engine's regexp model needs a
@@ -190,9 +194,9 @@ func verifC06LineMut(seeds []string, kinds int) {
 		return
 	}
 	seed := seeds[zzverif.Choice("seed", len(seeds))]
-	kind := c06Substitute
-	if kinds > 1 {
-		kind = zzverif.Choice("kind", kinds)
+	kind := kind0
+	if nkinds > 1 {
+		kind += zzverif.Choice("kind", nkinds)
 	}
 	c06Helper(h, c06Mutate(seed, kind), false, c06SmallPos())
 	zzverif.Reach("C06.linemut.h" + zzverif.Itoa(h))
